@@ -155,6 +155,20 @@ class Lib(object):
             return
         yield st, self.sym_method(engine, o, name, node)
 
+    def op_event(self, engine, st, opname, target, rest, node):
+        """an operator / builtin applied to a dynamic heap object: one ghost Op event, any result, any exception"""
+        self.used.add("%s on a dynamic object = one ghost Op event, any result, any exception" % opname)
+        ln = engine.rel_line(node)
+        restv = SVL(to_vl(rest))
+        for cls in [AnyException, AnyBaseException] + list(engine.exc_universe()):
+            b = st.fork().label("L%d:%s raises %s" % (ln, opname, cls.__name__))
+            b.trace.append(("Op", opname, target.z, restv.z, "raise"))
+            yield b, Raised(cls, ExcObj(cls, info={"dynamic": True}))
+        res = SVal(fresh("%s.result@L%d" % (opname, ln), Val))
+        engine.type_invariants(st, [res])
+        st.trace.append(("Op", opname, target.z, restv.z, res.z))
+        yield st, res
+
     def dyn_attr_event(self, engine, st, kind, o, name, node, value=None):
         """direct attribute access on a dynamic value: a ghost event (it may run arbitrary descriptor code)"""
         self.used.add("%s on a dynamic object = one ghost event, any result, any exception" % kind)
@@ -167,6 +181,13 @@ class Lib(object):
         res = SVal(fresh("%s.result@L%d" % (kind, ln), Val)) if kind == "GetAttr" else None
         if res is not None:
             engine.type_invariants(st, [res])
+            ga = engine.cur[0].getattr_assume.get(name) if isinstance(name, str) else None
+            if ga:
+                clause, why = ga
+                self.used.add("ASSUMED about reading .%s: %s (%s)" % (name, clause, why))
+                z, facts = engine.spec_bool(st, st, clause, {"obj": o, "result": res})
+                st.pc.extend(facts)
+                st.assume(z)
         st.trace.append((kind, to_val(o), nm, res.z if res is not None else None, value))
         yield st, res
 
@@ -226,6 +247,8 @@ class Lib(object):
             if name == "append" and len(args) == 1:
                 new = self.vl_append(engine, st, items, SVL(VL.cons(to_val(args[0]), VL.nil)))
                 st.heap[(recv.oid, "items")] = SVL(new.z)
+                if engine.cur[0].append_hints:
+                    engine.use_hints(st, engine.cur[0].append_hints, {"acc": items, "x": SVal(to_val(args[0]))})
                 yield st, None
                 return
             if name == "pop" and len(args) == 1 and args[0] == 0:
@@ -464,6 +487,9 @@ class Lib(object):
 
     def call_symmethod(self, engine, st, m, args, kwargs, node):
         o, name = m.recv, m.name
+        if isinstance(o, SVal) and name in ("startswith", "split", "lower", "count"):
+            # a text method on a dynamically typed value: the value must provably be text here
+            o = engine.narrow(st, o, "str", node, "receiver of .%s()" % name)
         if isinstance(o, SStr) and name == "encode" and args and args[0] in ("utf8", "utf-8") and not kwargs:
             errors = args[1] if len(args) > 1 else "strict"
             self.used.add("str.encode('utf8', %r): T-UTF8" % errors)
@@ -489,6 +515,13 @@ class Lib(object):
                 st.assume(self.P(engine, st, "utf8", txt).z == o.z)       # decoding is the inverse of encoding on valid input
                 yield st, txt
                 return
+        if isinstance(o, SStr) and name in ("lstrip", "rstrip", "strip", "lower", "upper", "title", "capitalize", "swapcase") and \
+                len(args) <= 1 and not kwargs and all(isinstance(a, (str, SStr)) for a in args):
+            # a pure text -> text method: an uninterpreted function of the receiver (and the argument)
+            self.used.add("str.%s: an uninterpreted pure function text -> text" % name)
+            fmt = Val.VStr(seq_lit("." + name))
+            yield st, SStr(Val.vs(self.spec.uf["text_format"](fmt, to_vl([o] + list(args)))))
+            return
         if isinstance(o, (SStr, SBytes)) and name == "startswith" and len(args) == 1:
             a = engine.narrow(st, args[0], "str" if isinstance(o, SStr) else "bytes", node, "startswith argument")
             yield st, b2v(z3.PrefixOf(zseq(a), o.z))
@@ -662,6 +695,9 @@ class Lib(object):
         import pickle as _pk
         for fn, opname in ((repr, "repr"), (str, "str"), (hash, "hash"), (dir, "dir"), (_it.islice, "islice"),
                            (_pk.loads, "pickle.loads"), (_pk.dumps, "pickle.dumps")):
+            if f is fn and args and fn in (hash, dir, repr) and isinstance(args[0], Sym) and not isinstance(args[0], SVal) and \
+                    (hasattr(type(args[0]), "as_val") or isinstance(args[0], (SInt, SStr, SBytes, SBool))):
+                args = [SVal(to_val(args[0]))] + list(args[1:])        # the operation applied to a value of a static kind
             if f is fn and args and isinstance(args[0], SVal) and not (fn is str and len(args) != 1):
                 # a builtin applied to an arbitrary object runs that object's code: one ghost Op event, any outcome
                 self.used.add("%s(obj) on a dynamic object = one ghost Op event, any result, any exception" % opname)
@@ -683,6 +719,12 @@ class Lib(object):
                 engine.type_invariants(st, [res])
                 if opname == "pickle.dumps":
                     st.assume(Val.is_VBytes(res.z))          # library fact: dumps returns bytes
+                if opname in ("repr", "str"):
+                    st.assume(Val.is_VStr(res.z))            # library fact: repr() / str() return text (TypeError otherwise)
+                if opname == "dir" and "all_str" in self.spec.recs:
+                    # library fact: dir() returns a list of texts (modelled as the tuple of its items)
+                    st.assume(Val.is_VTuple(res.z))
+                    st.assume(ops._z(truth(self.R(engine, st, "all_str", SVL(Val.titems(res.z))))))
                 st.trace.append(("Op", opname, args[0].z, rest.z, res.z))
                 yield st, res
                 return
@@ -706,6 +748,10 @@ class Lib(object):
                 yield st, (None, None, None)
             else:
                 e = st.exc_stack[-1]
+                self.used.add("ASSUMED (T-CLASSNAMES): the class of a raised exception has a text __name__ and __module__")
+                c = to_val(e.cls)
+                ma = self.spec.uf["meta_attr"]
+                st.assume(z3.And(z3.Not(Val.is_VStr(c)), Val.is_VStr(ma(c, seq_lit("__name__"))), Val.is_VStr(ma(c, seq_lit("__module__")))))
                 yield st, (e.cls, e.value if e.value is not None else ExcObj(e.cls), TB)
             return
         if f is hasattr and len(args) == 2 and isinstance(args[0], ExcObj) and isinstance(args[1], str):
@@ -878,6 +924,39 @@ class Lib(object):
         if f is _inspect.isclass and len(args) == 1:
             yield st, b2v(self.spec.uf["is_class"](to_val(args[0])))
             return
+        if f is issubclass and len(args) == 2 and isinstance(args[0], SVal) and args[1] is BaseException:
+            # issubclass(x, BaseException): TypeError unless x is a class; else the uninterpreted predicate is_exception_class
+            self.used.add("issubclass(x, BaseException): the predicate is_exception_class(x); TypeError if x is not a class")
+            v = args[0].z
+            isc = z3.And(Val.is_VRef(v), self.spec.uf["subclass_inst"](Val.oid(v), type_id(type)))
+            bad = st.fork().assume(z3.Not(isc)).label("L%d:issubclass of a non-class" % ln)
+            yield bad, Raised(TypeError, ExcObj(TypeError))
+            st.assume(isc)
+            yield st, b2v(self.spec.uf["is_exception_class"](v))
+            return
+        import types as _types
+        if f is getattr and len(args) == 3 and (isinstance(args[0], _types.ModuleType) or
+                                                (isinstance(args[0], SVal) and z3.is_app(args[0].z) and args[0].z.decl().name() == "sys_module")):
+            # getattr(module, name, default): a pure lookup in the module's namespace (module-level __getattr__ hooks are
+            # ignored - stated assumption); a name that is not text is a TypeError
+            self.used.add("getattr(module, name, default): a pure lookup in the module's namespace; TypeError if the name is not text")
+            nm = to_val(args[1])
+            bad = st.fork().assume(z3.Not(Val.is_VStr(nm))).label("L%d:attribute name not text" % ln)
+            yield bad, Raised(TypeError, ExcObj(TypeError))
+            st.assume(Val.is_VStr(nm))
+            m = to_val(args[0])
+            has = self.spec.uf["has_attr"](m, Val.vs(nm))
+            yield st, merge_values(has, SVal(self.spec.uf["module_attr"](m, nm)), args[2])
+            return
+        if f is getattr and len(args) == 3 and isinstance(args[0], SVal) and args[1] not in ("__name__", "__module__"):
+            # getattr(obj, name, default) on a dynamic object: one GetAttr event; AttributeError means the default
+            self.used.add("getattr(obj, name, default) on a dynamic object = one ghost GetAttr event; AttributeError yields the default")
+            for st2, r in self.dyn_attr_event(engine, st, "GetAttr", args[0], args[1], node):
+                if isinstance(r, Raised) and r.cls is AttributeError:
+                    yield st2.label("L%d:default" % ln), args[2]
+                else:
+                    yield st2, r
+            return
         if f is getattr and len(args) == 3 and isinstance(args[0], SVal) and args[1] in ("__name__", "__module__"):
             self.used.add("getattr(obj, '__name__', default): a pure lookup")
             # the attribute, or the default if the object has none
@@ -913,6 +992,9 @@ class Lib(object):
             b = engine.narrow(st, args[0], "bytes", node, "str(x, 'utf8') argument")
             for r in self.call_symmethod(engine, st, SymMethod(b, "decode"), ["utf8"], {}, node):
                 yield r
+            return
+        if f in (list, tuple) and len(args) == 1 and isinstance(args[0], Obj) and args[0].kind == "vlist":
+            yield st, SVal(Val.VTuple(engine.heap_get(st, args[0], "items").z))
             return
         if f in (list, tuple) and len(args) == 1 and isinstance(args[0], SVal):
             self.used.add("tuple(x) / list(x) of a dynamic value: an uninterpreted function of x (or TypeError)")
@@ -1019,6 +1101,16 @@ class Lib(object):
 
     # -- subscripts ---------------------------------------------------------------------------
     def getitem(self, engine, st, o, k, node):
+        import sys as _sys
+        if o is _sys.modules:
+            # sys.modules[name]: the module imported under that name (KeyError if none)
+            self.used.add("sys.modules[name]: an uninterpreted function of the name; KeyError when `name in sys.modules` is false")
+            inside = ops._z(truth(self.contains_sysmodules(engine, st, k)))
+            bad = st.fork().assume(z3.Not(inside)).label("L%d:not imported" % engine.rel_line(node))
+            yield bad, Raised(KeyError, ExcObj(KeyError))
+            st.assume(inside)
+            yield st, SVal(self.spec.uf["sys_module"](to_val(k)))
+            return
         fn = self.repo_dunder(engine, o, "__getitem__")
         if fn is not None:
             for r in engine.call_repo(st, fn, [o, k], {}, node):
@@ -1063,7 +1155,12 @@ class Lib(object):
             other = st.fork().assume(z3.Not(z3.Or(have, Val.is_VBytes(z), Val.is_VStr(z)))).label("L%d:[%d] not subscriptable" % (ln, k))
             if engine.feasible(other):
                 ref = other.fork().assume(Val.is_VRef(z))
-                engine.oblige(ref, "no-dynamic-getitem@L%d[%s]" % (ln, engine.path_label(ref)), FALSE,
+                if engine.cur[0].dynamic_errors:
+                    if engine.feasible(ref):
+                        for r in self.op_event(engine, ref, "getitem", o, [k], node):
+                            yield r
+                else:
+                  engine.oblige(ref, "no-dynamic-getitem@L%d[%s]" % (ln, engine.path_label(ref)), FALSE,
                               props=engine.all_props(engine.cur[1]), kind="pre",
                               note="subscripting an arbitrary heap object is not modelled; the value must be plain here")
                 other.assume(z3.Not(Val.is_VRef(z)))
@@ -1235,6 +1332,26 @@ class Lib(object):
         ln = engine.rel_line(node)
         for fn in ("plain", "sized"):
             self.R(engine, st, fn, v)           # definitions of the element-wise predicates at the iterated value
+        if engine.cur[0].merge_iteration:
+            # one path for every plain iterable: the items are defined by cases (tuple: its items; frozenset: its items in
+            # iteration order; bytes / text: plain elements)
+            it = z3.Or(Val.is_VTuple(z), Val.is_VFset(z), Val.is_VBytes(z), Val.is_VStr(z))
+            g = st.fork().assume(it).label("L%d:iter" % ln)
+            if engine.feasible(g):
+                order = self.P_order(engine, g, SFset(Val.fitems(z)))
+                other = SVL(self.spec.uf["iter_items"](z))
+                for fn in ("plain_list", "sized_list"):
+                    g.assume(z3.Implies(z3.Or(Val.is_VBytes(z), Val.is_VStr(z)), ops._z(truth(self.R(engine, g, fn, other)))))
+                yield g, SVL(z3.If(Val.is_VTuple(z), Val.titems(z), z3.If(Val.is_VFset(z), order.z, other.z)))
+            c = st.fork().assume(z3.Not(it)).label("L%d:iter other" % ln)
+            if engine.feasible(c):
+                d = c.fork().assume(Val.is_VRef(z))
+                engine.oblige(d, "no-dynamic-iter@L%d[%s]" % (ln, engine.path_label(d)), FALSE,
+                              props=engine.all_props(engine.cur[1]), kind="pre",
+                              note="iteration over an arbitrary heap object is not modelled here; must be infeasible")
+                c.assume(z3.Not(Val.is_VRef(z)))
+                yield c, Raised(TypeError, ExcObj(TypeError))
+            return
         a = st.fork().assume(Val.is_VTuple(z)).label("L%d:iter tuple" % ln)
         if engine.feasible(a):
             yield a, SVL(Val.titems(z))
@@ -1346,8 +1463,11 @@ class Lib(object):
         raise Unsupported("with %r" % (cm,))
 
     def contains_sysmodules(self, engine, st, x):
-        self.used.add("`name in sys.modules`: an uninterpreted predicate of the name")
-        return b2v(self.spec.uf["in_sys_modules"](to_val(x)))
+        self.used.add("`name in sys.modules`: an uninterpreted predicate of the name (and of the import epoch: it may change at an import)")
+        ep = st.heap.get(("$sys", "epoch"))
+        if ep is None:
+            return b2v(self.spec.uf["in_sys_modules"](to_val(x)))
+        return b2v(self.spec.uf["in_sys_modules_at"](to_val(x), ep.z))
 
     def repo_dunder(self, engine, o, name):
         import types as _t, inspect as _i
